@@ -122,9 +122,25 @@ struct VW {
   double v, w;
 };
 
+// history: 0 fresh object; 1 the object was initialised with the same range in the OTHER periodic mode and used before;
+// 2 it was initialised with another range before.  via_range: unit-weight values go through ProcessRange()
+static int g_hist_history = 0;
+static bool g_via_range = false;
 static Result check_histnew(double mn, double mx, long n, bool periodic, const std::vector<VW> &vals, bool normalize,
                             Result r) {
   vt::HistogramNew h;
+  if (g_hist_history == 1) {
+    h.setPeriodic(!periodic);
+    h.Initialize(mn, mx, n);
+    h.Process(mn, 1.0);
+    r.cls("object-reinitialised-after-mode-toggle");
+  }
+  if (g_hist_history == 2) {
+    h.setPeriodic(periodic);
+    h.Initialize(mn - 1.0, mx + 2.0, n + 3);
+    h.Process(mn, 1.0);
+    r.cls("object-reinitialised-with-new-range");
+  }
   h.setPeriodic(periodic);
   h.Initialize(mn, mx, n);
   const double eps = 2.220446049250313e-16;
@@ -158,7 +174,11 @@ static Result check_histnew(double mn, double mx, long n, bool periodic, const s
   for (const VW &x : vals) {
     RefBin R = ref_bin(x.v, mn, mx, n, periodic);
     Eigen::VectorXd before = h.data().y();
-    h.Process(x.v, x.w);
+    if (g_via_range && x.w == 1.0) {
+      std::vector<double> one{x.v};
+      h.ProcessRange(one.begin(), one.end());
+    } else
+      h.Process(x.v, x.w);
     const Eigen::VectorXd &after = h.data().y();
     if (after.size() != n) {
       r.fail("HistogramNew::Process/resized", "table size changed");
@@ -261,6 +281,9 @@ static Result run_histnew(const json &c) {
   long n = c.at("nbins");
   bool periodic = c.at("periodic");
   bool normalize = c.value("normalize", false);
+  g_hist_history = c.value("history", 0);
+  g_via_range = c.value("via_range", false);
+  if (g_via_range) r.cls("unit-weights-through-ProcessRange");
   // domain: finite range of positive length whose step is a normal number, n >= 1
   long double len = (long double)mx - (long double)mn;
   if (!(std::isfinite(mn) && std::isfinite(mx)) || !(mx > mn) || n < 1 || n > 100000 || !(len < 1.5e308L) ||
@@ -435,7 +458,8 @@ static json gen_histnew() {
     if (std::fabs(v) > 1e308) v = v > 0 ? 1e308 : -1e308;
     vals.push_back({v, dyadic_weight()});
   }
-  return json{{"min", mn}, {"max", mx}, {"nbins", n}, {"periodic", periodic}, {"values", vals}, {"normalize", rbool(40)}};
+  return json{{"min", mn}, {"max", mx}, {"nbins", n}, {"periodic", periodic}, {"values", vals}, {"normalize", rbool(40)},
+              {"history", rbool(30) ? ri(1, 2) : 0}, {"via_range", rbool(30)}};
 }
 
 // exhaustive small scope: n <= level, integer-step grids, every value on the half-step lattice from 3 periods below to
